@@ -25,8 +25,8 @@ static bool
 l2_inv8(const nni_id_map *m)
 {
 	const struct nni_id_entry *e = m->id_entries;
-	unsigned cnt = 0, load = 0;
-	unsigned cross[8] = { 0, 0, 0, 0, 0, 0, 0, 0 };
+	uint8_t  cnt = 0, load = 0; /* at most 8 and 64: no wrap */
+	uint8_t  cross[8] = { 0, 0, 0, 0, 0, 0, 0, 0 };
 	bool     ok = true;
 	if (m->id_cap != 8 || m->id_min_load != 0 || m->id_max_load != 5) {
 		return (false);
@@ -36,7 +36,7 @@ l2_inv8(const nni_id_map *m)
 			unsigned h = (unsigned) (e[i].key & 7);
 			unsigned d = L2_D8(h, i);
 			cnt++;
-			load += 1 + d;
+			load = (uint8_t) (load + 1 + d);
 			for (unsigned j = 0; j < 8; j++) {
 				if (L2_D8(h, j) < d) {
 					cross[j]++; /* the key in slot i crosses slot j */
@@ -83,12 +83,95 @@ l2_lookup8(const nni_id_map *m, uint64_t k)
 #define L2_SHAPE8(m) (__CPROVER_is_fresh((m), sizeof(nni_id_map)) && __CPROVER_is_fresh((m)->id_entries, 8 * IDM_ENT_SZ))
 #endif
 
+/* ---- capacity 16 (only for the growth step 8 -> 16) */
+static const uint8_t l2_r16[16] = { 0, 1, 6, 15, 12, 13, 2, 11, 8, 9, 14, 7, 4, 5, 10, 3 }; /* rank on the cycle 0,1,6,15,12,13,2,11,8,9,14,7,4,5,10,3 */
+#define L2_D16(h, j) ((unsigned) (l2_r16[(j)] - l2_r16[(h)]) & 15u)
+static bool
+l2_inv16(const nni_id_map *m)
+{
+	const struct nni_id_entry *e = m->id_entries;
+	uint8_t  cnt = 0, load = 0;
+	uint8_t  cross[16] = { 0, 0, 0, 0, 0, 0, 0, 0, 0, 0, 0, 0, 0, 0, 0, 0 };
+	bool     ok = true;
+	if (m->id_cap != 16 || m->id_min_load != 2 || m->id_max_load != 10) {
+		return (false);
+	}
+	for (unsigned i = 0; i < 16; i++) {
+		if (e[i].val != NULL) {
+			unsigned h = (unsigned) (e[i].key & 15);
+			unsigned d = L2_D16(h, i);
+			cnt++;
+			load = (uint8_t) (load + 1 + d);
+			for (unsigned j = 0; j < 16; j++) {
+				if (L2_D16(h, j) < d) {
+					cross[j]++;
+				}
+				if (j > i && e[j].val != NULL && e[j].key == e[i].key) {
+					ok = false;
+				}
+			}
+		}
+	}
+	for (unsigned j = 0; j < 16; j++) {
+		if (e[j].skips != cross[j]) {
+			ok = false;
+		}
+	}
+	return (ok && m->id_count == cnt && m->id_load == load);
+}
+static void *
+l2_lookup16(const nni_id_map *m, uint64_t k)
+{
+	for (unsigned i = 0; i < 16; i++) {
+		if (m->id_entries[i].val != NULL && m->id_entries[i].key == k) {
+			return (m->id_entries[i].val);
+		}
+	}
+	return (NULL);
+}
+
 /* ghost equations: g_kv is what the (arbitrary) key g_kk maps to before the call,
  * g_j is the slot of the operated key before the call */
 #define L2_GHOST_PRE(m, id) (g_kv == L2_LOOKUP(m, g_kk) && g_j == L2_SLOTOF(m, id))
 #define L2_OTHERS_SAME(m, id) ((g_kk != (id)) ==> L2_LOOKUP(m, g_kk) == g_kv)
 /* the table is not reallocated, nothing allocated or released */
 #define L2_SAME_TABLE(m) (IDM_SAME_PTR((m)->id_entries) && VP_HEAP_DELTA(0, 0))
+
+/* id_resize at capacity 8 with at most 4 live ids does nothing at all (checked on
+ * the real function by unit idhash_l2_resize8; used in place of the call by the
+ * other Layer 2 units so that no second table has to be modelled) */
+int l2_resize8(nni_id_map *m)
+__CPROVER_requires(__CPROVER_is_fresh(m, sizeof(nni_id_map)))
+__CPROVER_requires(m->id_cap == 8 && m->id_min_load == 0 && m->id_max_load == 5 && m->id_count <= 4 && !m->id_static)
+__CPROVER_assigns()
+__CPROVER_ensures(RV == 0)
+;
+
+/* Exhaustive case split on the home slot of the operated key: a unit built with
+ * -DL2_H=h proves the contract for the keys with (id & 7) == h; the eight units
+ * h = 0..7 together cover every key.  (One unit for all homes did not finish.) */
+#ifdef L2_H
+#define L2_CASE_SPLIT(id) __CPROVER_requires(((id) & 7) == L2_H)
+#else
+#define L2_CASE_SPLIT(id)
+#endif
+
+/* growth step: id_resize on a full capacity-8 table (5 live ids) builds a
+ * capacity-16 table with the invariant and the SAME mapping; ENOMEM: unchanged */
+int l2_grow8(nni_id_map *m)
+__CPROVER_requires(L2_SHAPE8(m))
+__CPROVER_requires(L2_INV8_BODY(m))
+__CPROVER_requires(m->id_count == 5 && !m->id_static && g_kv == L2_LOOKUP(m, g_kk))
+__CPROVER_assigns(*m, VP_HEAP_GHOSTS)
+__CPROVER_frees(m->id_entries)
+__CPROVER_ensures(RV == 0 || RV == NNG_ENOMEM)
+__CPROVER_ensures(IDM_RANGE_UNCHANGED(m) && m->id_dyn_val == OLD(m->id_dyn_val) && m->id_count == 5)
+__CPROVER_ensures(RV != 0 ==> (VP_HEAP_DELTA(0, 0) && !__CPROVER_was_freed(OLD(m->id_entries)) && IDM_SAME_PTR(m->id_entries)))
+__CPROVER_ensures(RV != 0 ==> (L2_INV8_BODY(m) && L2_LOOKUP(m, g_kk) == g_kv))
+__CPROVER_ensures(RV == 0 ==> (VP_HEAP_DELTA(1, 1) && __CPROVER_was_freed(OLD(m->id_entries)) && __CPROVER_is_fresh(m->id_entries, 16 * IDM_ENT_SZ)))
+__CPROVER_ensures(RV == 0 ==> l2_inv16(m))
+__CPROVER_ensures(RV == 0 ==> l2_lookup16(m, g_kk) == g_kv)
+;
 
 /* find is COMPLETE: it reports the slot of the key iff some live slot holds it */
 size_t l2_find8(nni_id_map *m, uint64_t id)
@@ -112,13 +195,29 @@ __CPROVER_requires(L2_SHAPE8(m))
 __CPROVER_requires(L2_INV8_BODY(m))
 __CPROVER_requires(L2_GHOST_PRE(m, id))
 __CPROVER_requires(m->id_count <= 4 && !m->id_static && val != NULL)
-__CPROVER_assigns(*m, __CPROVER_object_whole(m->id_entries), VP_HEAP_GHOSTS, g_slot, IDM_REG_TARGETS)
+L2_CASE_SPLIT(id)
+__CPROVER_assigns(*m, __CPROVER_object_whole(m->id_entries), g_slot)
 __CPROVER_ensures(RV == 0)
+__CPROVER_ensures(IDM_RANGE_UNCHANGED(m) && m->id_dyn_val == OLD(m->id_dyn_val))
 __CPROVER_ensures(L2_SAME_TABLE(m))
 __CPROVER_ensures(L2_INV8_BODY(m))
 __CPROVER_ensures(L2_LOOKUP(m, id) == val)
 __CPROVER_ensures(L2_OTHERS_SAME(m, id))
 __CPROVER_ensures(m->id_count == OLD(m->id_count) + (g_j == IDM_NOTFOUND ? 1 : 0))
+;
+
+/* first insertion into an empty map (capacity 0 -> 8): establishes the invariant */
+int l2_set_first(nni_id_map *m, uint64_t id, void *val)
+__CPROVER_requires(__CPROVER_is_fresh(m, sizeof(nni_id_map)))
+__CPROVER_requires(m->id_cap == 0 && m->id_entries == NULL && IDM_SCALAR(m) && !m->id_static && val != NULL)
+__CPROVER_assigns(*m, VP_HEAP_GHOSTS, g_slot)
+__CPROVER_ensures(RV == 0 || RV == NNG_ENOMEM)
+__CPROVER_ensures(IDM_RANGE_UNCHANGED(m) && m->id_dyn_val == OLD(m->id_dyn_val))
+__CPROVER_ensures(RV != 0 ==> (m->id_cap == 0 && m->id_entries == NULL && IDM_SCALAR(m) && VP_HEAP_DELTA(0, 0)))
+__CPROVER_ensures(RV == 0 ==> (VP_HEAP_DELTA(1, 0) && __CPROVER_is_fresh(m->id_entries, 8 * IDM_ENT_SZ)))
+__CPROVER_ensures(RV == 0 ==> L2_INV8_BODY(m))
+__CPROVER_ensures(RV == 0 ==> (m->id_count == 1 && L2_LOOKUP(m, id) == val))
+__CPROVER_ensures((RV == 0 && g_kk != id) ==> L2_LOOKUP(m, g_kk) == NULL)
 ;
 
 /* remove = map delete (at most 5 live ids: the table stays at capacity 8) */
@@ -127,8 +226,10 @@ __CPROVER_requires(L2_SHAPE8(m))
 __CPROVER_requires(L2_INV8_BODY(m))
 __CPROVER_requires(L2_GHOST_PRE(m, id))
 __CPROVER_requires(m->id_count <= 5 && !m->id_static)
-__CPROVER_assigns(*m, __CPROVER_object_whole(m->id_entries), VP_HEAP_GHOSTS, g_found, IDM_REG_TARGETS)
+L2_CASE_SPLIT(id)
+__CPROVER_assigns(*m, __CPROVER_object_whole(m->id_entries), g_found)
 __CPROVER_ensures(RV == (g_j == IDM_NOTFOUND ? NNG_ENOENT : 0))
+__CPROVER_ensures(IDM_RANGE_UNCHANGED(m) && m->id_dyn_val == OLD(m->id_dyn_val))
 __CPROVER_ensures(L2_SAME_TABLE(m))
 __CPROVER_ensures(L2_INV8_BODY(m))
 __CPROVER_ensures(L2_LOOKUP(m, id) == NULL)
@@ -140,11 +241,11 @@ __CPROVER_ensures(m->id_count == OLD(m->id_count) - (g_j == IDM_NOTFOUND ? 0 : 1
 int l2_alloc8(nni_id_map *m, uint64_t *idp, void *val)
 __CPROVER_requires(L2_SHAPE8(m))
 __CPROVER_requires(L2_INV8_BODY(m))
-__CPROVER_requires(g_kv == L2_LOOKUP(m, g_kk))
+__CPROVER_requires(g_kv == L2_LOOKUP(m, g_kk) && g_j == IDM_NOTFOUND)
 __CPROVER_requires(m->id_count <= 4 && !m->id_static && val != NULL)
 __CPROVER_requires(IDM_RANGE_OK(m) && IDM_CURSOR_OK(m))
 __CPROVER_requires(__CPROVER_is_fresh(idp, sizeof(*idp)))
-__CPROVER_assigns(*m, __CPROVER_object_whole(m->id_entries), VP_HEAP_GHOSTS, g_slot, *idp, IDM_REG_TARGETS)
+__CPROVER_assigns(*m, __CPROVER_object_whole(m->id_entries), g_slot, *idp)
 __CPROVER_ensures(L2_SAME_TABLE(m))
 __CPROVER_ensures(L2_INV8_BODY(m))
 __CPROVER_ensures((RV == NNG_ENOMEM) == (OLD(m->id_count) > m->id_max_val - m->id_min_val))
